@@ -116,13 +116,21 @@ def build(sp, meta=True, as_list=False):
     from . import boot, monitors
     da = boot.boot()
     axes = []
-    for d, lab, k in zip(sp["dims"], sp["labels"], sp["kinds"]):
-        ax = da.Axis(np_labels(lab, k), d)
-        if meta:
-            ax._attrs.update(monitors.axis_sentinel(d))
-        axes.append(ax)
-    v = sp["values"]
-    a = da.DimArray(np.array(v, copy=True), axes=axes)
+    try:
+        for d, lab, k in zip(sp["dims"], sp["labels"], sp["kinds"]):
+            ax = da.Axis(np_labels(lab, k), d)
+            if meta:
+                ax._attrs.update(monitors.axis_sentinel(d))
+            axes.append(ax)
+        v = sp["values"]
+        a = da.DimArray(np.array(v, copy=True), axes=axes)
+    except Exception as e:
+        # a well-formed (values, Axis objects) specification that the constructor refuses is a C05 matter
+        # (the host workload then reports a harness error, i.e. is inconclusive)
+        monitors.note('C05', 'build-raised:' + type(e).__name__,
+                      "DimArray(values, axes=[Axis...]) raised %s: %s for dims=%r labels=%r shape=%r" % (
+                          type(e).__name__, str(e)[:200], sp["dims"], sp["labels"], np.shape(sp["values"])))
+        raise
     if meta:
         a._attrs.update(monitors.sentinel_attrs())
     if "attrs" in sp:
